@@ -713,7 +713,7 @@ fn run_check(cfg: &Config) -> i32 {
     let t0 = Instant::now();
     let mut determinism_diverged = false;
     let decls = cat_c09::all();
-    let n_sources: u64 = if cfg.thorough() { 24_000_000 } else { 300_000 };
+    let n_sources: u64 = if cfg.thorough() { 24_000_000 } else { 500_000 };
     // Fixed corpus first (sharded by declaration), then the seeded sweep.
     let cfg2 = cfg.clone();
     let mut stats = runner::run_sharded(
